@@ -652,6 +652,21 @@ def gen_c08(rng, n, tier):
                 txs = [f"xfer u1 u2 {r.choice([1, 5])}"] + txs + [f"bvm u1 store Set s:k s:v"]
             ops.append("block " + " | ".join(txs))
             tags.add("evm-bridge:" + ("unfunded" if who.startswith("p") else "funded"))
+        if r.random() < 0.2:
+            # well-formed traffic that makes the executor's own bookkeeping (outside every recover) edit its lists: several requests
+            # of different pairs pending under ONE deadline, answered in every order (the first, a middle one, the last, all at once)
+            pairs = r.sample([("c1:s1", "c2:s1"), ("c2:s1", "c1:s1"), ("c1:s2", "c2:s3"), ("c4:s1", "c2:s1"), ("c2:s3", "c4:s1"), ("c1:s1", "c4:s1")], r.choice([2, 3, 4]))
+            T = r.choice([4, 5, 9])
+            adm = lambda s: "ca" + s.split(":")[0][1:]
+            ops.append("block " + " | ".join(f"ibtp {adm(f)} {f} {t} 1 req {T} - ok" for f, t in pairs))
+            order = list(pairs)
+            r.shuffle(order)
+            if r.random() < 0.4:
+                ops.append("block " + " | ".join(f"ibtp {adm(t)} {f} {t} 1 {r.choice(['ok', 'fail'])} 0 - ok" for f, t in order[:-1]))
+            else:
+                for f, t in order[:r.choice([1, 2, len(order)])]:
+                    ops.append(f"block ibtp {adm(t)} {f} {t} 1 {r.choice(['ok', 'fail'])} 0 - ok")
+            tags.add("shared-deadline-answered-in-any-order")
         for _b in range(nb):
             txs = []
             for _t in range(r.choice([1, 1, 2, 3, 5])):
